@@ -20,7 +20,8 @@ Sub-checks (Violation.subcheck):
   not-lost  a status bit raised by a hardware event is cleared only by firmware, by the documented
             acknowledge paths, or after being taken; an enabled pending request is taken within BOUND steps
   halt      a halted CPU executes nothing, wakes when a status bit is pending, never wakes without one
-  off       additionally: no timer status bit is raised while powered off
+  off       additionally: no timer status bit is raised while powered off, and a running timer's distance to its
+            expiry (model's own target minus model's own cycle counter) does not shrink in a powered-off step
   machine   the model raised an error while stepping a valid scenario
 
 Wider observations (round 2): every record carries the internal-memory window 00-EE (user RAM + BP/PX/PY); a step
@@ -93,6 +94,12 @@ class Monitor:
         self.reset_in_handler = False          # a RESET instruction was executed while a handler was active
         self.reset_targets = (R.MAIN, R.HANDLER)   # contents of the reset vector (0xFFFFD) / of the vector at 0xFFFFA
         self.periods = {0x01: int(sc.get("mti", 0) or 0), 0x02: int(sc.get("sti", 0) or 0)}
+        # round 5: powered-off periods with a running timer
+        self.off_run = 0                       # consecutive steps the CPU stayed powered off with a timer armed
+        self.off_rem = 0                       # time the nearest timer still had to run when that period began
+        self.off_steps_armed = 0
+        self.off_wakes_armed = 0
+        self.off_adv_reported = 0              # timers already reported as counting while powered off (once per run)
 
     # ------------------------------------------------------------------ helpers
     def ctx(self, B: Dict[str, Any]) -> str:
@@ -175,6 +182,41 @@ class Monitor:
                 self.v("off", ctx, f"timer status {_names(rose_t)} raised while powered off",
                        f"step {k}: ISR {B['isr']:#04x}->{A['isr']:#04x} cycles {B['cyc']}->{A['cyc']} "
                        f"next_mti {B['nm']}->{A['nm']} next_sti {B['ns']}->{A['ns']} power {B['pw']}->{A['pw']}")
+
+        # Round 5: "a powered-off CPU additionally stops both timers" -- judged on the timers' own progress, not only on
+        # status bits: in a step that the model itself reports as powered off at both ends (nothing executed), the
+        # distance between a running timer's own expiry target and the model's own time base (cycle counter) must not
+        # shrink.  Otherwise the time spent powered off is charged to the timer and it expires (at once) after the
+        # wake-up, however long the remaining period was.
+        if B["pw"] == 2:
+            armed = [(bit, key) for bit, key in ((0x01, "nm"), (0x02, "ns")) if self.periods[bit] > 0 and B[key] > 0]
+            if A["pw"] == 2 and e == 0:
+                if armed:
+                    if self.off_run == 0:
+                        self.off_rem = min(B[key] - B["cyc"] for _, key in armed)
+                    self.off_run += 1
+                    self.off_steps_armed += 1
+                    self.labels.add("off-step-with-running-timer")
+                adv = 0
+                for bit, key in armed:
+                    if A[key] - A["cyc"] < B[key] - B["cyc"]:
+                        adv |= bit
+                adv &= ~self.off_adv_reported
+                self.off_adv_reported |= adv
+                if adv:
+                    self.v("off", ctx, f"timer {_names(adv)} kept counting down towards its expiry while powered off",
+                           f"step {k}: cycles {B['cyc']}->{A['cyc']} next_mti {B['nm']}->{A['nm']} next_sti {B['ns']}->{A['ns']} "
+                           f"periods mti={self.periods[1]} sti={self.periods[2]} ISR {B['isr']:#04x}->{A['isr']:#04x} "
+                           f"power {B['pw']}->{A['pw']} (remaining time = model's expiry target - model's cycle counter)")
+            elif self.off_run:
+                # wake-up after a powered-off period with a running timer: classify its length against the time the
+                # timer still had to run when the CPU went off
+                per = max(self.periods.values())
+                self.labels.add("off-period:" + ("shorter-than-remaining-timer" if self.off_run < max(self.off_rem, 1) else
+                                                 ("at-least-remaining-timer" if self.off_run < max(self.off_rem, 1) + per
+                                                  else "remaining-timer-plus-a-period-or-more")))
+                self.off_wakes_armed += 1
+                self.off_run = 0
 
         # ---------------- abstract replay of the step: delivery / instruction in the model's order
         cur = {"pc": B["pc"] & 0xFFFFF, "s": B["s"], "imr": B["imr"], "f": B["f"]}
